@@ -4,9 +4,11 @@
 //     v is evaluated, printed with fu.Repr (what `arrai eval`, the shell echo and //str.repr use for every
 //     non-top-level value), the printed text is evaluated again (v'), and
 //       observable = <rt>;<out>
-//       <rt>  = same                                 canon(v') = canon(v) and fu.Repr(v') = fu.Repr(v)
+//       <rt>  = same                                 canon(v') = canon(v) and fu.Repr(v') = fu.Repr(v) up to the order
+//                                                    in which members are listed (the two texts are permutations of
+//                                                    each other: arr.ai's member order is C06's subject, not C12's)
 //             | diff:<canon v>|<canon v'>            the value changed
-//             | text-diff:<repr v>|<repr v'>         equal values, different text
+//             | text-diff:<repr v>|<repr v'>         equal values, texts that are not permutations of each other
 //             | reparse-error | reparse-panic        the printed text is not accepted
 //             | strrepr-mismatch                     //str.repr(v) is not fu.Repr(v)
 //             | src-error                            the payload itself did not evaluate
@@ -27,6 +29,7 @@ import (
 	"sort"
 	"strconv"
 	"strings"
+	"sync"
 
 	"github.com/spf13/afero"
 
@@ -97,9 +100,15 @@ func outMode(v rel.Value, text string) string {
 	}
 	// raw: the characters (or bytes) in index order, newline terminated unless they already end in one
 	for _, attr := range []string{"@char", "@byte"} {
-		if _, cs, ok := seqContent(v, attr); ok && len(cs) > 0 {
+		if ats, cs, ok := seqContent(v, attr); ok && len(cs) > 0 {
 			var sb strings.Builder
-			for _, c := range cs {
+			for i, c := range cs {
+				// a gap in the indices of a string is written as U+FFFD (string(s.s) of the hole marker)
+				if i > 0 && attr == "@char" {
+					for k := ats[i-1] + 1; k < ats[i]; k++ {
+						sb.WriteRune(0xFFFD)
+					}
+				}
 				if attr == "@char" {
 					sb.WriteRune(rune(c))
 				} else {
@@ -118,6 +127,44 @@ func outMode(v rel.Value, text string) string {
 	return "other:" + out
 }
 
+var (
+	strReprOnce sync.Once
+	strReprFn   rel.Value
+)
+
+// strRepr calls arr.ai's //str.repr on v (the function value is looked up once, through the evaluator).
+func strRepr(v rel.Value) (res rel.Value, err error, panicked bool) {
+	defer func() {
+		if p := recover(); p != nil {
+			panicked = true
+		}
+	}()
+	strReprOnce.Do(func() {
+		strReprFn, _ = hlib.EvalSrc("//str.repr")
+	})
+	fn, ok := strReprFn.(rel.Set)
+	if !ok {
+		return nil, fmt.Errorf("//str.repr is not a function"), false
+	}
+	res, err = rel.SetCall(hlib.NewCtx(), fn, v)
+	return
+}
+
+// sameUpToOrder: the two texts consist of the same characters (members of sets, dicts and relations may be
+// listed in a different order; a different representation or different escapes change the characters).
+func sameUpToOrder(a, b string) bool {
+	if a == b {
+		return true
+	}
+	ra, rb := []rune(a), []rune(b)
+	if len(ra) != len(rb) {
+		return false
+	}
+	sort.Slice(ra, func(i, j int) bool { return ra[i] < ra[j] })
+	sort.Slice(rb, func(i, j int) bool { return rb[i] < rb[j] })
+	return string(ra) == string(rb)
+}
+
 func reprrt(p []string) string {
 	v, err, pan := safeEval(p[0])
 	if pan {
@@ -128,12 +175,12 @@ func reprrt(p []string) string {
 	}
 	text := fu.Repr(v)
 	out := outMode(v, text)
-	// //str.repr goes through the same printer: check it on the value itself
-	sv, err, pan := safeEval("//str.repr(" + p[0] + ")")
+	// //str.repr goes through the same printer: apply the library function to the value itself
+	sv, err, pan := strRepr(v)
 	if pan || err != nil {
 		return "strrepr-mismatch;" + out
 	}
-	if s, ok := sv.(rel.String); !ok || s.String() != text {
+	if s, ok := sv.(rel.String); !ok || !sameUpToOrder(s.String(), text) {
 		if !(text == "" && !sv.IsTrue()) {
 			return "strrepr-mismatch;" + out
 		}
@@ -149,7 +196,7 @@ func reprrt(p []string) string {
 	if c1 != c2 {
 		return "diff:" + c1 + "|" + c2 + ";" + out
 	}
-	if t2 := fu.Repr(v2); t2 != text {
+	if t2 := fu.Repr(v2); !sameUpToOrder(t2, text) {
 		return "text-diff:" + text + "|" + t2 + ";" + out
 	}
 	return "same;" + out
